@@ -4,7 +4,7 @@
 scale=${1:-0.3}
 declare -A PROP=( [revert-fix-all-any]=C01 [revert-fix-sort]=C01 [revert-fix-handler-bind]=C06 [revert-fix-stale-terminal]=C02
   [revert-fix-set-location]=C18 [revert-fix-eval-location]=C18 [revert-fix-thread-location]=C18 [revert-fix-tail-location]=C18
-  [revert-fix-context-leak]=C05 [revert-fix-insert-sorted-nil-cells]=C03 [revert-fix-nested-load-context]=C04 [revert-fix-context-leak-panic]=C05 [revert-fix-evalsexpr-location]=C05 [seed-c12-B-on-prefix-tree]=C12 )
+  [revert-fix-context-leak]=C05 [revert-fix-host-time-zone]=C10 [revert-fix-insert-sorted-nil-cells]=C03 [revert-fix-nested-load-context]=C04 [revert-fix-context-leak-panic]=C05 [revert-fix-evalsexpr-location]=C05 [seed-c12-B-on-prefix-tree]=C12 )
 for m in /verif/mutants/*.sh; do
   n=$(basename $m .sh)
   if [[ $n =~ ^c([0-9][0-9])- ]]; then P=C${BASH_REMATCH[1]}; else P=${PROP[$n]:-}; fi
